@@ -150,7 +150,7 @@ Lemma sh_unroll_args_in_group : unroll_args_in_group (rs c l) = unroll_args_in_g
 Hint Rewrite sh_unroll_args_in_group : sh.
 Lemma sh_unroll_requires_loop : unroll_requires_loop (rs c l) = unroll_requires_loop c.
 Proof.
-  extensionality func. extensionality fuel. induction fuel as [|f IH]; [reflexivity|].
+  extensionality func. extensionality root. extensionality fuel. induction fuel as [|f IH]; [reflexivity|].
   extensionality r_vec. extensionality processed. extensionality args. cbn [unroll_requires_loop]. rewrite IH. reflexivity.
 Qed.
 Hint Rewrite sh_unroll_requires_loop : sh.
